@@ -128,24 +128,37 @@ func init() {
 				}
 				ia := rapid.SliceOfN(rapid.IntRange(0, k-1), n, n).Draw(t, "ia")
 				ib := rapid.SliceOfN(rapid.IntRange(0, k-1), n, n).Draw(t, "ib")
-				args := [][]byte{u32(n), u32(oa), u32(ob), u32(k)}
+				// length mismatches (documented panic): the receiver and/or the second operand longer than the first
+				// operand, by a whole number of 16-lane blocks or by one — panic-or-not must agree across variants
+				dr := rapid.SampledFrom([]int{0, 0, 0, 0, 0, 0, 16, 1, 32}).Draw(t, "dlenR")
+				db := rapid.SampledFrom([]int{0, 0, 0, 0, 0, 0, 0, 16, 1}).Draw(t, "dlenB")
+				args := [][]byte{u32(n), u32(oa), u32(ob), u32(k), u32(dr), u32(db)}
 				args = append(args, pool...)
 				idx := make([]byte, 2*n)
 				for i := 0; i < n; i++ {
 					idx[i], idx[n+i] = byte(ia[i]), byte(ib[i])
 				}
 				args = append(args, idx)
-				return args, []string{lenClass(n)}, n == 0 || n%16 != 0 || n >= 112
+				cl := []string{lenClass(n)}
+				if dr != 0 || db != 0 {
+					cl = append(cl, "length_mismatch")
+				}
+				return args, cl, n == 0 || n%16 != 0 || n >= 112 || dr != 0 || db != 0
 			},
 			run: func(a [][]byte) [][]byte {
 				n, oa, ob, k := gu32(a[0]), gu32(a[1]), gu32(a[2]), gu32(a[3])
-				pool := a[4 : 4+k]
-				idx := a[4+k]
+				dr, db := gu32(a[4]), gu32(a[5])
+				pool := a[6 : 6+k]
+				idx := a[6+k]
+				nb := n + db
 				A := f.NewVec(n + oa).Slice(oa, oa+n)
-				B := f.NewVec(n + ob).Slice(ob, ob+n)
+				B := f.NewVec(nb + ob).Slice(ob, ob+nb)
 				for i := 0; i < n; i++ {
 					A.At(i).SetBig(new(big.Int).SetBytes(pool[idx[i]]))
 					B.At(i).SetBig(new(big.Int).SetBytes(pool[idx[n+i]]))
+				}
+				for i := n; i < nb; i++ {
+					B.At(i).SetUint64(uint64(i) + 3)
 				}
 				dump := func(v inst.Vec) []byte {
 					var b []byte
@@ -154,24 +167,36 @@ func init() {
 					}
 					return b
 				}
+				// every sub-operation runs under its own recover: a (documented) panic of one of them is an
+				// observation to be compared across variants, not the end of the case
+				try := func(fn func() []byte) []byte {
+					var o []byte
+					func() {
+						defer func() {
+							if p := recover(); p != nil {
+								o = []byte("PANIC")
+							}
+						}()
+						o = fn()
+					}()
+					return o
+				}
 				var out [][]byte
-				r := f.NewVec(n + 3).Slice(3, 3+n)
-				r.Add(A, B)
-				out = append(out, dump(r))
-				r.Sub(A, B)
-				out = append(out, dump(r))
-				r.Mul(A, B)
-				out = append(out, dump(r))
+				nr := n + dr
+				r := f.NewVec(nr + 3).Slice(3, 3+nr)
+				out = append(out, try(func() []byte { r.Add(A, B); return dump(r) }))
+				out = append(out, try(func() []byte { r.Sub(A, B); return dump(r) }))
+				out = append(out, try(func() []byte { r.Mul(A, B); return dump(r) }))
 				c := f.New()
 				if n > 0 {
 					c.Set(B.At(0))
 				} else {
 					c.SetUint64(7)
 				}
-				r.ScalarMul(A, c)
-				out = append(out, dump(r))
-				out = append(out, rawBytes(A.Sum()), rawBytes(A.InnerProduct(B)))
-				out = append(out, dump(A.BatchInvert()))
+				out = append(out, try(func() []byte { r.ScalarMul(A, c); return dump(r) }))
+				out = append(out, try(func() []byte { return rawBytes(A.Sum()) }))
+				out = append(out, try(func() []byte { return rawBytes(A.InnerProduct(B)) }))
+				out = append(out, try(func() []byte { return dump(A.BatchInvert()) }))
 				return out
 			},
 		})
